@@ -665,6 +665,11 @@ class World:
             want_e = {self.U[j] for j in tt.support(e.t, self.n)}
             require(set(sup_e) == want_e, 'support.wrong',
                     dict(got=sorted(sup_e), want=sorted(want_e)))
+        for e in self.held:
+            c_e = self.api.count(e.ref)
+            k_e = len(tt.support(e.t, self.n))
+            require(c_e == tt.popcount(e.t) >> (self.n - k_e),
+                    'count.wrong', dict(got=c_e))
         # ... and of every stored node (held or not), through the
         # wrapped dd.bdd manager: read-only
         den = Den(self.b, self.U)
@@ -719,6 +724,22 @@ class World:
                     idx |= 1 << self.idx[x]
             require((tu >> idx) & 1, 'pick_iter.not_model', dict(d=d))
         self.label('queries')
+
+    REPEATABLE = {'apply', 'not', 'ite', 'funcop', 'quantify', 'let_const',
+                  'let_rename', 'let_compose', 'cube', 'var', 'add_expr',
+                  'to_expr', 'queries', 'build', 'find_or_add'}
+
+    def op_repeat(self, k):
+        """Re-issue an earlier call with the same arguments (after
+        whatever happened in between: collections, swaps, undeclarations,
+        re-used node numbers).  Arguments are interpreted against the
+        current state, so this is an ordinary, valid call."""
+        cands = [op for op in self.log[:-1] if op[0] in self.REPEATABLE]
+        if not cands:
+            return
+        op = cands[-1 - (k % min(len(cands), 6))]
+        getattr(self, 'op_' + op[0])(*op[1:])
+        self.label('repeat')
 
     # references ------------------------------------------------------
     def op_incref(self, i):
@@ -992,7 +1013,8 @@ class World:
         'load_wrong_extension', 'dump_wrong_extension', 'load_corrupt_pickle',
         'load_corrupt_json', 'image_precondition', 'let_mixed_values',
         'add_expr_deep_failure', 'cube_bad_after_progress',
-        'let_compose_late_failure',
+        'let_compose_late_failure', 'max_nodes_full', 'copy_missing_var',
+        'image_unknown_var_late',
     ]
 
     def op_bad(self, kind, a, b):
@@ -1340,6 +1362,50 @@ class World:
             raise ValueError('n/a')
         d = {self.order[0]: self._u(a), 'zz_undeclared': self._u(b)}
         self.api.let(d, self._u(a + b))
+
+    def _bad_max_nodes_full(self, a, b):
+        """The documented `max_nodes` limit is hit in the middle of an
+        operation (RuntimeError 'full')."""
+        old = self.b.max_nodes
+        self.b.max_nodes = max(self.b._succ) + 1 + a % 3
+        try:
+            x, y = self._u(a), self._u(b)
+            r = self.api.apply('xor', x, y)
+            r = self.api.apply('and', r, self._u(a + b))
+            # stayed below the limit: nothing to judge
+        finally:
+            self.b.max_nodes = old
+
+    def _bad_copy_missing_var(self, a, b):
+        """Copy from a manager that has a variable this one lacks: fails
+        inside the copy."""
+        if self.kind == 'autoref':
+            S = self._ar.BDD()
+            S.declare('zz_other', *self.order)
+            f = S.add_expr('zz_other /\\ ' + (self.order[0]
+                                               if self.order else 'TRUE'))
+            if b % 2:
+                S.copy(f, self.A)
+            else:
+                self._ar.copy_bdd(f, self.A)
+        else:
+            S = _mk_bdd_class()()
+            S.declare('zz_other', *self.order)
+            f = S.add_expr('zz_other \\/ ' + (self.order[-1]
+                                                if self.order else 'FALSE'))
+            S.copy(f, self.b)
+
+    def _bad_image_unknown_var_late(self, a, b):
+        """preimage with a quantified name that is not declared."""
+        n = len(self.order)
+        if n < 2:
+            raise ValueError('n/a')
+        x, y = self.order[a % (n - 1)], self.order[a % (n - 1) + 1]
+        u, v = self._u(a), self._u(b)
+        if self.kind == 'autoref':
+            self._ar.preimage(u, v, {x: y}, {'zz_undeclared'})
+        else:
+            self._bddmod.preimage(u, v, {x: y}, {'zz_undeclared'}, self.b)
 
     # shutdown (dd.autoref, C08) ---------------------------------------
     def shutdown(self, perm_seed=0):
